@@ -43,6 +43,17 @@ def _normalise_tests(tree):
                 for i, st in enumerate(h.body):
                     if isinstance(st, ast.AnnAssign) and st.value is not None and st.simple:
                         h.body[i] = ast.copy_location(ast.Assign(targets=[st.target], value=st.value, type_comment=None), st)
+    # `if a:` whose only statement is an else-less `if b: S` (and no else itself) is `if a and b: S`
+    changed = True
+    while changed:
+        changed = False
+        for n in ast.walk(tree):
+            if isinstance(n, ast.If) and not n.orelse and len(n.body) == 1 and isinstance(n.body[0], ast.If) and not n.body[0].orelse:
+                inner = n.body[0]
+                vals = (n.test.values if isinstance(n.test, ast.BoolOp) and isinstance(n.test.op, ast.And) else [n.test]) + (inner.test.values if isinstance(inner.test, ast.BoolOp) and isinstance(inner.test.op, ast.And) else [inner.test])
+                n.test = ast.copy_location(ast.BoolOp(op=ast.And(), values=vals), n.test)
+                n.body = inner.body
+                changed = True
     # `CONST == x` is `x == CONST`
     for n in ast.walk(tree):
         if isinstance(n, ast.Compare) and len(n.ops) == 1 and isinstance(n.ops[0], (ast.Eq, ast.NotEq)) and isinstance(n.left, ast.Constant) and not isinstance(n.comparators[0], ast.Constant):
